@@ -765,20 +765,32 @@ class CountControlConstructionToken(CompositeBaseToken):
          BracketFinishToken]
     ]
 
+    @staticmethod
+    def _reference_of(expression):
+        """
+        The area or cell token when the argument is a bare reference (COUNT looks at the cells of a reference but at
+        the value of anything else: A1+1, (A1), SUM(A1:A3) are expressions, not references), otherwise None
+        """
+        if len(expression.value) == 1 and isinstance(expression.value[0], OperandToken) and isinstance(
+                expression.value[0].value[0], (MatrixOfCellIdentifiersToken, CellIdentifierToken)):
+            return expression.value[0].value[0]
+
+        return None
+
     @property
     def matrices(self) -> list[MatrixOfCellIdentifiersToken]:
         return [
-            expression.left_operand.matrix
+            self._reference_of(expression)
             for expression in self.value[2].expressions
-            if hasattr(expression.left_operand, 'matrix') and expression.left_operand.matrix is not None
+            if isinstance(self._reference_of(expression), MatrixOfCellIdentifiersToken)
         ]
 
     @property
     def arg_cells(self) -> list[CellIdentifierToken]:
         return [
-            expression.left_operand.value[0]
+            self._reference_of(expression)
             for expression in self.value[2].expressions
-            if isinstance(expression.left_operand.value[0], CellIdentifierToken)
+            if isinstance(self._reference_of(expression), CellIdentifierToken)
         ]
 
     @property
@@ -786,7 +798,7 @@ class CountControlConstructionToken(CompositeBaseToken):
         return [
             expression
             for expression in self.value[2].expressions
-            if isinstance(expression.left_operand.value[0], LiteralToken)
+            if self._reference_of(expression) is None
         ]
 
 
